@@ -265,6 +265,44 @@ func runC15(w *World, tier string) (bool, interface{}) {
 	if !w.Failed() {
 		c.L.Quiesce(8)
 	}
+	// an already retired identifier comes back: the finished batch's proposal is
+	// re-posted unchanged (the board accepts anything), the round re-opens the
+	// batch, which derives the same operation ids again, and the carrier
+	// submits the old result files once more. Nothing may be answered twice.
+	if !w.Failed() && len(c.Tr.Order) > 0 && c.AllInState(round, StIdle, members) && w.Tape.Bool(1, 2, "lateDuplicate") {
+		bi := c.Tr.LastBatch()
+		start := w.Board.Msgs[bi.Offset]
+		w.Board.InjectMsg(start, &Inject{Kind: "replayed-proposal"})
+		w.Stats.Fault("proposal-replayed-after-completion")
+		for r := 0; r < 3; r++ {
+			w.Advance(time.Second)
+			for _, nd := range w.Nodes {
+				if nd.inc != nil && nd.inc.Poller.Parked() != nil {
+					w.RunPollTick(nd.inc.Poller)
+				}
+			}
+		}
+		for i, op := range c.Ops {
+			for id, body := range op.results {
+				var ro types.Operation
+				if json.Unmarshal(body, &ro) != nil || !ro.IsSigningState() {
+					continue
+				}
+				blen := w.Board.Len()
+				rep := submit(i, body, &inflight{node: i, legit: false})
+				judged++
+				if w.Failed() {
+					break
+				}
+				if rep.OK() || w.Board.Len() != blen {
+					w.Fail("C15", "retired-operation-answered-again/"+string(ro.Type), fmt.Sprintf("node %d had retired operation %s; after the batch's proposal was re-posted the old result was accepted again (board grew by %d)", i, id, w.Board.Len()-blen))
+					break
+				}
+				w.Stats.Probe("late-duplicate-refused")
+			}
+		}
+		return judged > 0, map[string]interface{}{"n": n, "t": t, "variants": kinds, "judged": judged, "late_duplicate": true}
+	}
 	for k, v := range answered {
 		if v > 1 && !w.Failed() {
 			w.Fail("C15", "operation-answered-twice", fmt.Sprintf("%s answered %d times", k, v))
